@@ -33,7 +33,6 @@ BigCnt == 64                            \* "enough iovecs"
 Junk    == -1
 Null    == -100000                     \* iov_base never assigned (calloc/mmap zero = NULL)
 Garbage == -2                          \* a size computed from a NULL base: an address, not a size
-Ev(x)   == IF Record THEN x ELSE << >>
 Pending == -1
 NoPos  == [idx |-> -1, off |-> -1, rnd |-> -1]
 None   == [b |-> -1, n |-> -1]
@@ -242,6 +241,16 @@ StInit(r0) ==
   /\ rounds = 0
   /\ viol = {}
   /\ ev = << >>
+
+(* Record = 0: ev is not kept (plain model checking);  1: ev' = the call with everything the spec says it returns;
+   2: additionally the projected state BEFORE the call, so that the distinct states of the exploration are
+      exactly the edges (pre-state, call, post-state) of the state graph - used to replay every edge *)
+PreInfo == [pre |-> [wpos |-> rb.wpos, idx |-> rb.idx, imax |-> rb.imax, rnd |-> rb.rnd,
+                     frag |-> IF rb.frag THEN 1 ELSE 0, full |-> IF rb.full THEN 1 ELSE 0,
+                     iov |-> [i \in 1..IovN |-> <<rb.iov[i - 1].b, rb.iov[i - 1].l>>],
+                     mem |-> [c \in 1..Size |-> ByteOf(mem[c - 1])],
+                     rpos |-> rpos, got |-> got, wcount |-> wcount]]
+Ev(x) == IF Record = 0 THEN << >> ELSE IF Record = 1 THEN x ELSE x @@ PreInfo
 
 NoReaderChange == UNCHANGED <<rpos, next, low, lastret>>
 Invalidate == lastret' = [r \in Readers |-> 0]     \* a writer step ends the reader's get/inc pair
